@@ -3,23 +3,56 @@ package core
 import (
 	"go/constant"
 	"go/token"
+	"go/types"
 
 	"golang.org/x/tools/go/ssa"
 )
 
 // E7: path enumeration of comparison-only code. A Valuation binds SSA values
 // (symbols) to small integers or booleans; Walk follows the CFG from a block
-// deciding every branch under the valuation.
+// deciding every branch under the valuation. With Enter set, static calls of
+// the selected functions are followed into the callee (interprocedural): the
+// callee's parameters stand for the caller's arguments and its results become
+// the value of the call, so a decision reads the same whether it is written
+// in place or in a helper. Nothing of the analysed program is executed: the
+// walker evaluates comparison and arithmetic operators on its own integers.
 
 type Valuation struct {
 	Int  func(v ssa.Value) (int64, bool)
 	Bool func(v ssa.Value) (bool, bool)
 	// Visit, when set, is called for every non-phi instruction passed by Walk,
-	// in order (loops included); values can be read with EvalInt at that time.
+	// in order (loops and entered callees included); values can be read with
+	// EvalInt / Root at that time.
 	Visit func(in ssa.Instruction)
+	// Enter selects the static callees that are followed (nil: none).
+	Enter func(f *ssa.Function) bool
 
-	// concrete values of the phis, assigned in parallel on block entry
-	phiInt map[*ssa.Phi]int64
+	cur *wframe
+}
+
+// wframe is one activation of a function during a walk.
+type wframe struct {
+	fn      *ssa.Function
+	caller  *wframe
+	args    []ssa.Value // the call's arguments, values of the caller's frame
+	phiInt  map[*ssa.Phi]int64
+	phiBool map[*ssa.Phi]bool
+	phiVal  map[*ssa.Phi]ssa.Value
+	callRes map[*ssa.Call][]wres
+}
+
+// wres is one result of an entered call.
+type wres struct {
+	i     int64
+	b     bool
+	isInt bool
+	isB   bool
+	val   ssa.Value // the returned value, rooted in a caller's frame where possible
+	fr    *wframe   // the frame val belongs to
+}
+
+func newFrame(fn *ssa.Function, caller *wframe, args []ssa.Value) *wframe {
+	return &wframe{fn: fn, caller: caller, args: args, phiInt: map[*ssa.Phi]int64{}, phiBool: map[*ssa.Phi]bool{}, phiVal: map[*ssa.Phi]ssa.Value{}, callRes: map[*ssa.Call][]wres{}}
 }
 
 // WalkResult is the end of a concrete walk.
@@ -29,16 +62,99 @@ type WalkResult struct {
 	Prev   *ssa.BasicBlock   // predecessor of the final block (for phis)
 	OK     bool              // false: a branch could not be decided or step bound hit
 	Why    string
-	Phi    map[*ssa.Phi]ssa.Value // resolved phi inputs along the path
+	Phi    map[*ssa.Phi]ssa.Value // resolved phi inputs along the path (outermost frame)
+	// RetInt / RetBool: the results of the final return, where they evaluate
+	RetInt  map[int]int64
+	RetBool map[int]bool
 }
 
-// EvalInt evaluates an integer value under the valuation.
-func (val *Valuation) EvalInt(v ssa.Value, phi map[*ssa.Phi]ssa.Value) (int64, bool) {
-	v = Unwrap(v)
-	if val.Int != nil {
-		if n, ok := val.Int(v); ok {
-			return n, true
+// Root follows v through parameters of entered callees to the value of the
+// outermost frame it stands for (and through phis resolved on the path).
+func (val *Valuation) Root(v ssa.Value) ssa.Value {
+	r, _ := val.rootIn(val.cur, v)
+	return r
+}
+
+func (val *Valuation) rootIn(f *wframe, v ssa.Value) (ssa.Value, *wframe) {
+	for steps := 0; steps < 64; steps++ {
+		v = Unwrap(v)
+		if f == nil {
+			return v, nil
 		}
+		switch x := v.(type) {
+		case *ssa.Parameter:
+			if f.caller != nil && x.Parent() == f.fn {
+				for i, p := range f.fn.Params {
+					if p == x && i < len(f.args) {
+						v, f = f.args[i], f.caller
+						goto next
+					}
+				}
+			}
+			return v, f
+		case *ssa.Phi:
+			if in, ok := f.phiVal[x]; ok && in != ssa.Value(x) {
+				v = in
+				goto next
+			}
+			return v, f
+		case *ssa.Call:
+			if rs, ok := f.callRes[x]; ok && len(rs) == 1 && rs[0].val != nil {
+				v, f = rs[0].val, rs[0].fr
+				goto next
+			}
+			return v, f
+		case *ssa.Extract:
+			if call, ok := x.Tuple.(*ssa.Call); ok {
+				if rs, ok := f.callRes[call]; ok && x.Index < len(rs) && rs[x.Index].val != nil {
+					v, f = rs[x.Index].val, rs[x.Index].fr
+					goto next
+				}
+			}
+			return v, f
+		default:
+			return v, f
+		}
+	next:
+	}
+	return v, f
+}
+
+// EvalInt evaluates an integer value under the valuation (in the current
+// frame; the phi argument is kept for compatibility and may be nil).
+func (val *Valuation) EvalInt(v ssa.Value, phi map[*ssa.Phi]ssa.Value) (int64, bool) {
+	return val.evalInt(val.cur, v, phi, 0)
+}
+
+func (val *Valuation) atomInt(f *wframe, v ssa.Value) (int64, bool) {
+	if val.Int == nil {
+		return 0, false
+	}
+	save := val.cur
+	val.cur = f
+	n, ok := val.Int(v)
+	val.cur = save
+	return n, ok
+}
+
+func (val *Valuation) atomBool(f *wframe, v ssa.Value) (bool, bool) {
+	if val.Bool == nil {
+		return false, false
+	}
+	save := val.cur
+	val.cur = f
+	b, ok := val.Bool(v)
+	val.cur = save
+	return b, ok
+}
+
+func (val *Valuation) evalInt(f *wframe, v ssa.Value, phi map[*ssa.Phi]ssa.Value, depth int) (int64, bool) {
+	if depth > 200 {
+		return 0, false
+	}
+	v = Unwrap(v)
+	if n, ok := val.atomInt(f, v); ok {
+		return n, true
 	}
 	switch x := v.(type) {
 	case *ssa.Const:
@@ -46,17 +162,42 @@ func (val *Valuation) EvalInt(v ssa.Value, phi map[*ssa.Phi]ssa.Value) (int64, b
 			return constant.Int64Val(x.Value)
 		}
 	case *ssa.Convert:
-		return val.EvalInt(x.X, phi)
+		return val.evalInt(f, x.X, phi, depth+1)
+	case *ssa.Parameter:
+		if f != nil && f.caller != nil && x.Parent() == f.fn {
+			for i, p := range f.fn.Params {
+				if p == x && i < len(f.args) {
+					return val.evalInt(f.caller, f.args[i], nil, depth+1)
+				}
+			}
+		}
 	case *ssa.Phi:
-		if n, ok := val.phiInt[x]; ok {
-			return n, true
+		if f != nil {
+			if n, ok := f.phiInt[x]; ok {
+				return n, true
+			}
+			if in, ok := f.phiVal[x]; ok && in != ssa.Value(x) {
+				return val.evalInt(f, in, phi, depth+1)
+			}
 		}
 		if in, ok := phi[x]; ok && in != ssa.Value(x) {
-			return val.EvalInt(in, phi)
+			return val.evalInt(f, in, phi, depth+1)
+		}
+	case *ssa.Call:
+		if f != nil {
+			if rs, ok := f.callRes[x]; ok && len(rs) == 1 && rs[0].isInt {
+				return rs[0].i, true
+			}
+		}
+	case *ssa.Extract:
+		if call, ok := x.Tuple.(*ssa.Call); ok && f != nil {
+			if rs, ok := f.callRes[call]; ok && x.Index < len(rs) && rs[x.Index].isInt {
+				return rs[x.Index].i, true
+			}
 		}
 	case *ssa.BinOp:
-		a, ok1 := val.EvalInt(x.X, phi)
-		b, ok2 := val.EvalInt(x.Y, phi)
+		a, ok1 := val.evalInt(f, x.X, phi, depth+1)
+		b, ok2 := val.evalInt(f, x.Y, phi, depth+1)
 		if !ok1 || !ok2 {
 			return 0, false
 		}
@@ -86,36 +227,69 @@ func (val *Valuation) EvalInt(v ssa.Value, phi map[*ssa.Phi]ssa.Value) (int64, b
 
 // EvalBool evaluates a boolean value under the valuation.
 func (val *Valuation) EvalBool(v ssa.Value, phi map[*ssa.Phi]ssa.Value) (bool, bool) {
+	return val.evalBool(val.cur, v, phi, 0)
+}
+
+func (val *Valuation) evalBool(f *wframe, v ssa.Value, phi map[*ssa.Phi]ssa.Value, depth int) (bool, bool) {
+	if depth > 200 {
+		return false, false
+	}
 	v = Unwrap(v)
-	if val.Bool != nil {
-		if b, ok := val.Bool(v); ok {
-			return b, true
-		}
+	if b, ok := val.atomBool(f, v); ok {
+		return b, true
 	}
 	switch x := v.(type) {
 	case *ssa.Const:
 		if x.Value != nil && x.Value.Kind() == constant.Bool {
 			return constant.BoolVal(x.Value), true
 		}
+	case *ssa.Parameter:
+		if f != nil && f.caller != nil && x.Parent() == f.fn {
+			for i, p := range f.fn.Params {
+				if p == x && i < len(f.args) {
+					return val.evalBool(f.caller, f.args[i], nil, depth+1)
+				}
+			}
+		}
 	case *ssa.Phi:
-		if in, ok := phi[x]; ok {
-			return val.EvalBool(in, phi)
+		if f != nil {
+			if b, ok := f.phiBool[x]; ok {
+				return b, true
+			}
+			if in, ok := f.phiVal[x]; ok && in != ssa.Value(x) {
+				return val.evalBool(f, in, phi, depth+1)
+			}
+		}
+		if in, ok := phi[x]; ok && in != ssa.Value(x) {
+			return val.evalBool(f, in, phi, depth+1)
+		}
+	case *ssa.Call:
+		if f != nil {
+			if rs, ok := f.callRes[x]; ok && len(rs) == 1 && rs[0].isB {
+				return rs[0].b, true
+			}
+		}
+	case *ssa.Extract:
+		if call, ok := x.Tuple.(*ssa.Call); ok && f != nil {
+			if rs, ok := f.callRes[call]; ok && x.Index < len(rs) && rs[x.Index].isB {
+				return rs[x.Index].b, true
+			}
 		}
 	case *ssa.UnOp:
 		if x.Op == token.NOT {
-			b, ok := val.EvalBool(x.X, phi)
+			b, ok := val.evalBool(f, x.X, phi, depth+1)
 			return !b, ok
 		}
 	case *ssa.BinOp:
 		switch x.Op {
 		case token.EQL, token.NEQ, token.LSS, token.LEQ, token.GTR, token.GEQ:
-			a, ok1 := val.EvalInt(x.X, phi)
-			b, ok2 := val.EvalInt(x.Y, phi)
+			a, ok1 := val.evalInt(f, x.X, phi, depth+1)
+			b, ok2 := val.evalInt(f, x.Y, phi, depth+1)
 			if !ok1 || !ok2 {
 				// boolean equality
 				if x.Op == token.EQL || x.Op == token.NEQ {
-					p, ok3 := val.EvalBool(x.X, phi)
-					q, ok4 := val.EvalBool(x.Y, phi)
+					p, ok3 := val.evalBool(f, x.X, phi, depth+1)
+					q, ok4 := val.evalBool(f, x.Y, phi, depth+1)
 					if ok3 && ok4 {
 						return (p == q) == (x.Op == token.EQL), true
 					}
@@ -136,6 +310,18 @@ func (val *Valuation) EvalBool(v ssa.Value, phi map[*ssa.Phi]ssa.Value) (bool, b
 			case token.GEQ:
 				return a >= b, true
 			}
+		case token.AND, token.LAND:
+			p, ok1 := val.evalBool(f, x.X, phi, depth+1)
+			q, ok2 := val.evalBool(f, x.Y, phi, depth+1)
+			if ok1 && ok2 {
+				return p && q, true
+			}
+		case token.OR, token.LOR:
+			p, ok1 := val.evalBool(f, x.X, phi, depth+1)
+			q, ok2 := val.evalBool(f, x.Y, phi, depth+1)
+			if ok1 && ok2 {
+				return p || q, true
+			}
 		}
 	}
 	return false, false
@@ -143,13 +329,22 @@ func (val *Valuation) EvalBool(v ssa.Value, phi map[*ssa.Phi]ssa.Value) (bool, b
 
 // Walk follows the CFG from `start` (entered from `from`, may be nil).
 func (val *Valuation) Walk(start, from *ssa.BasicBlock) WalkResult {
-	res := WalkResult{Phi: map[*ssa.Phi]ssa.Value{}}
+	top := newFrame(start.Parent(), nil, nil)
+	res := val.walkFrame(top, start, from, 0)
+	res.Phi = top.phiVal
+	val.cur = top
+	return res
+}
+
+func (val *Valuation) walkFrame(f *wframe, start, from *ssa.BasicBlock, depth int) WalkResult {
+	res := WalkResult{Phi: f.phiVal, RetInt: map[int]int64{}, RetBool: map[int]bool{}}
 	cur, prev := start, from
-	val.phiInt = map[*ssa.Phi]int64{}
+	val.cur = f
 	for steps := 0; steps < 10000; steps++ {
 		// phis are assigned in parallel: evaluate every incoming value under
 		// the state before the block is entered, then commit
 		newInt := map[*ssa.Phi]int64{}
+		newBool := map[*ssa.Phi]bool{}
 		var phis []*ssa.Phi
 		for _, in := range cur.Instrs {
 			ph, ok := in.(*ssa.Phi)
@@ -159,22 +354,45 @@ func (val *Valuation) Walk(start, from *ssa.BasicBlock) WalkResult {
 			phis = append(phis, ph)
 			for i, p := range cur.Preds {
 				if p == prev {
-					if n, isInt := val.EvalInt(ph.Edges[i], res.Phi); isInt {
+					if n, isInt := val.evalInt(f, ph.Edges[i], nil, 0); isInt {
 						newInt[ph] = n
+					}
+					if bt, isB := ph.Type().Underlying().(*types.Basic); isB && bt.Kind() == types.Bool {
+						if b, ok := val.evalBool(f, ph.Edges[i], nil, 0); ok {
+							newBool[ph] = b
+						}
 					}
 				}
 			}
 		}
+		newVal := map[*ssa.Phi]ssa.Value{}
 		for _, ph := range phis {
 			for i, p := range cur.Preds {
 				if p == prev {
-					res.Phi[ph] = ph.Edges[i]
+					// resolve through other phis of this block under the old state
+					e := ph.Edges[i]
+					if ep, isPhi := e.(*ssa.Phi); isPhi && ep.Block() == cur {
+						if old, ok := f.phiVal[ep]; ok {
+							e = old
+						}
+					}
+					newVal[ph] = e
 				}
 			}
+		}
+		for _, ph := range phis {
+			if e, ok := newVal[ph]; ok {
+				f.phiVal[ph] = e
+			}
 			if n, ok := newInt[ph]; ok {
-				val.phiInt[ph] = n
+				f.phiInt[ph] = n
 			} else {
-				delete(val.phiInt, ph)
+				delete(f.phiInt, ph)
+			}
+			if b, ok := newBool[ph]; ok {
+				f.phiBool[ph] = b
+			} else {
+				delete(f.phiBool, ph)
 			}
 		}
 		for _, in := range cur.Instrs {
@@ -182,21 +400,66 @@ func (val *Valuation) Walk(start, from *ssa.BasicBlock) WalkResult {
 				continue
 			}
 			res.Instrs = append(res.Instrs, in)
+			val.cur = f
 			if val.Visit != nil {
 				val.Visit(in)
 			}
+			// follow a selected static callee
+			if call, ok := in.(*ssa.Call); ok && val.Enter != nil && depth < 6 {
+				if g := call.Call.StaticCallee(); g != nil && g.Blocks != nil && val.Enter(g) && !onStack(f, g) {
+					sub := newFrame(g, f, call.Call.Args)
+					sr := val.walkFrame(sub, g.Blocks[0], nil, depth+1)
+					res.Instrs = append(res.Instrs, sr.Instrs...)
+					val.cur = f
+					if sr.OK {
+						if _, isPanic := sr.End.(*ssa.Panic); isPanic {
+							res.End, res.Prev, res.OK = sr.End, prev, true
+							return res
+						}
+						if ret, isRet := sr.End.(*ssa.Return); isRet {
+							var rs []wres
+							for i, r := range ret.Results {
+								w := wres{}
+								if n, ok := sr.RetInt[i]; ok {
+									w.i, w.isInt = n, true
+								}
+								if b, ok := sr.RetBool[i]; ok {
+									w.b, w.isB = b, true
+								}
+								w.val, w.fr = val.rootIn(sub, r)
+								rs = append(rs, w)
+							}
+							f.callRes[call] = rs
+						}
+					}
+					// an undecided callee leaves the call's value unknown; a branch
+					// that needs it is then undecidable as well
+				}
+			}
 		}
+		val.cur = f
 		last := cur.Instrs[len(cur.Instrs)-1]
 		switch x := last.(type) {
-		case *ssa.Return, *ssa.Panic:
+		case *ssa.Return:
+			for i, r := range x.Results {
+				if n, ok := val.evalInt(f, r, nil, 0); ok {
+					res.RetInt[i] = n
+				}
+				if b, ok := val.evalBool(f, r, nil, 0); ok {
+					res.RetBool[i] = b
+				}
+			}
+			res.End, res.Prev, res.OK = last, prev, true
+			return res
+		case *ssa.Panic:
 			res.End, res.Prev, res.OK = last, prev, true
 			return res
 		case *ssa.Jump:
 			prev, cur = cur, cur.Succs[0]
 		case *ssa.If:
-			b, ok := val.EvalBool(x.Cond, res.Phi)
+			b, ok := val.evalBool(f, x.Cond, nil, 0)
 			if !ok {
-				res.Why = "branch condition not decidable under the valuation"
+				res.Why = "branch condition not decidable under the valuation: " + x.Cond.Name() + " = " + x.Cond.String() + " in " + cur.Parent().String()
 				res.End = last
 				return res
 			}
@@ -212,6 +475,23 @@ func (val *Valuation) Walk(start, from *ssa.BasicBlock) WalkResult {
 	}
 	res.Why = "step bound"
 	return res
+}
+
+func onStack(f *wframe, g *ssa.Function) bool {
+	for ; f != nil; f = f.caller {
+		if f.fn == g {
+			return true
+		}
+	}
+	return false
+}
+
+// SamePackage is an Enter policy: follow static callees declared in the same
+// package as root that have a body.
+func SamePackage(root *ssa.Function) func(*ssa.Function) bool {
+	return func(g *ssa.Function) bool {
+		return g != nil && g.Blocks != nil && pkgPathOf(g) == pkgPathOf(root)
+	}
 }
 
 // WeakOrderings enumerates every weak ordering of n symbols as rank vectors
